@@ -2464,7 +2464,7 @@ fn gen_c08(o: &mut Out, r: &mut Rng, d: &GDict, tier: &str, cuts: bool) {
 
 fn gen_c10(o: &mut Out, r: &mut Rng, tier: &str) {
     let thorough = tier == "thorough";
-    let faults = ["malformed", "oversized", "short", "stall_midframe", "stall_handshake", "half_hello", "reset", "panic", "garbage_close", "hello_close", "plain_req_close", "stall_announce_max", "panic_sync"];
+    let faults = ["malformed", "deepnest", "oversized", "short", "stall_midframe", "stall_handshake", "half_hello", "reset", "panic", "garbage_close", "hello_close", "plain_req_close", "stall_announce_max", "panic_sync"];
     let whens = ["before", "during", "after"];
     // the scenario table: fault kind x moment x listener kind; number of well-behaved clients and of faulty peers vary
     for tls in [0, 1] {
